@@ -4,7 +4,7 @@
 //!
 //!   mopen <hex>     write the bytes to a file, `map::Reader::open`, call everything it exposes
 #![allow(dead_code)]
-use crate::domains::d_datafile::{compress, df_err_name, tune_malloc, Comp, Image, Item};
+use crate::domains::d_datafile::{compress, datas_str, df_err_name, items_str, parse_datas, parse_items, rand_datas, rand_items, tune_malloc, well_formed, words_hex, Comp, Image, Item};
 use crate::util::*;
 use libtw2_map::format as mf;
 use libtw2_map::reader as mr;
@@ -537,9 +537,92 @@ fn mopen(dir: &std::path::Path, bytes: &[u8], o: &mut Oracle) -> String {
     line
 }
 
+/// `datafile::Reader::new(file)` with the file positioned at `start` (a datafile embedded in a
+/// larger file); items and data.
+fn fopen(dir: &std::path::Path, start: u64, bytes: &[u8], expect: Option<(&[Item], &[Vec<u8>])>, o: &mut Oracle) -> String {
+    use std::io::Seek;
+    let n = COUNTER.fetch_add(1, Ordering::SeqCst);
+    let path = dir.join(format!("df-{}-{}.bin", std::process::id(), n));
+    std::fs::write(&path, bytes).expect("write temporary file");
+    let mut f = std::fs::File::open(&path).expect("open temporary file");
+    f.seek(std::io::SeekFrom::Start(start)).expect("seek");
+    let line = match catch(|| libtw2_datafile::Reader::new(f)) {
+        Err(msg) => {
+            o.fail("C16/reader-new-panics", format!("{} start={} file={}", msg, start, to_hex(bytes)));
+            "panic-new".to_string()
+        }
+        Ok(Err(libtw2_datafile::Error::Df(e))) => {
+            if let Some((items, _)) = expect {
+                if well_formed(items) {
+                    o.fail("C16/well-formed-file-rejected", format!("{} start={}", df_err_name(&e), start));
+                }
+            }
+            format!("err {}", df_err_name(&e))
+        }
+        Ok(Err(libtw2_datafile::Error::Io(_))) => "err Io".to_string(),
+        Ok(Ok(mut r)) => match catch(|| {
+            let ver = match r.version() {
+                libtw2_datafile::Version::V3 => "v3",
+                libtw2_datafile::Version::V4Crude => "v4c",
+                libtw2_datafile::Version::V4 => "v4",
+            };
+            let (ni, nd) = (r.num_items(), r.num_data());
+            let mut items = vec![];
+            for i in 0..ni {
+                let v = r.item(i);
+                items.push(Item { type_id: v.type_id, id: v.id, data: v.data.to_vec() });
+            }
+            let mut ds = vec![];
+            for i in 0..nd {
+                ds.push(r.read_data(i));
+            }
+            (ver, ni, nd, items, ds)
+        }) {
+            Err(msg) => {
+                o.fail("C16/accessor-panics", format!("{} start={} file={}", msg, start, to_hex(bytes)));
+                "panic-acc".to_string()
+            }
+            Ok((ver, ni, nd, items, ds)) => {
+                if let Some((eitems, edatas)) = expect {
+                    if items != eitems {
+                        o.fail("C16/roundtrip-items-differ", format!("start={} file={}", start, to_hex(bytes)));
+                    }
+                    let got: Vec<Option<&Vec<u8>>> = ds.iter().map(|x| x.as_ref().ok()).collect();
+                    let want: Vec<Option<&Vec<u8>>> = edatas.iter().map(Some).collect();
+                    if got != want {
+                        o.fail("C16/roundtrip-data-differs", format!("datafile embedded at offset {}: start={} file={}", start, start, to_hex(bytes)));
+                    }
+                }
+                let is: Vec<String> = items.iter().map(|it| format!("{}.{}.{}", it.type_id, it.id, words_hex(&it.data))).collect();
+                let dsx: Vec<String> = ds
+                    .iter()
+                    .map(|d| match d {
+                        Ok(b) => to_hex(b),
+                        Err(libtw2_datafile::Error::Df(e)) => format!("e:{}", df_err_name(e)),
+                        Err(libtw2_datafile::Error::Io(_)) => "e:Io".to_string(),
+                    })
+                    .collect();
+                format!("ok {} {},{} I={} D={}", ver, ni, nd, list_str(is), list_str(dsx))
+            }
+        },
+    };
+    let _ = std::fs::remove_file(&path);
+    line
+}
+
 impl Runner for R {
     fn run(&mut self, toks: &[&str], o: &mut Oracle) -> String {
         match toks {
+            ["fopen", st, h, items, datas] => match (st.parse::<u64>(), parse_hex(h)) {
+                (Ok(st), Some(bs)) => {
+                    let exp = match (parse_items(items), parse_datas(datas)) {
+                        (Some(i), Some(d)) if *items != "?" => Some((i, d)),
+                        _ => None,
+                    };
+                    fopen(&self.dir, st, &bs, exp.as_ref().map(|(i, d)| (&i[..], &d[..])), o)
+                }
+                _ => "bad-op".to_string(),
+            },
             ["mopen", h] => match parse_hex(h) {
                 Some(bs) => mopen(&self.dir, &bs, o),
                 None => "bad-op".to_string(),
@@ -858,6 +941,27 @@ impl Domain for D {
                     m.items[i].data.truncate(n);
                     emit_map(out, &m, &mut rng);
                 }
+            }
+        }
+        // 2b. datafiles embedded in a larger file: `datafile::Reader::new(file)` at an offset
+        for k in 0..(if thorough { 600 } else { 60 }) {
+            let items = rand_items(&mut rng, 5, 4);
+            let datas = rand_datas(&mut rng, 3, 30);
+            let comp = *rng.pick(&[Comp::Stored, Comp::Fixed, Comp::Zlib]);
+            let df = Image::build(3 + (k % 2) as i32, &items, &datas, &|_, d| compress(comp, d)).serialize();
+            for start in [0usize, 1, 3, 36, 100] {
+                let mut f = rng.bytes(start);
+                f.extend_from_slice(&df);
+                if rng.chance(1, 3) {
+                    f.extend_from_slice(&[0xee; 7]);
+                }
+                writeln!(out, "fopen {} {} {} {}", start, to_hex(&f), items_str(&items), datas_str(&datas)).unwrap();
+            }
+            // positions that are not the start of the datafile, and beyond the end of the file
+            let mut f = rng.bytes(8);
+            f.extend_from_slice(&df);
+            for start in [0usize, 9, 12, 8 + df.len(), 8 + df.len() + 5] {
+                writeln!(out, "fopen {} {} ? ?", start, to_hex(&f)).unwrap();
             }
         }
         // 3. not a datafile at all / truncated file: the file-backed open path
